@@ -37,6 +37,9 @@ class G:
         self.macro_names: list[str] = []  # callable macros (with arity) in the current scope
         self.macro_arity: dict[str, int] = {}
         self.params_in_scope: list[str] = []
+        self.cur_routine = None  # id of the routine whose body is being generated (None: macro bodies)
+        self.n_side = 0
+        self.side_entries: list[tuple[str, int]] = []
 
     # -- primitives
     def i(self, lo, hi):
@@ -224,6 +227,32 @@ class G:
             if self.budget <= 0:
                 break
             out.append(self.stmt(depth, in_loop, in_case))
+        if self.use_labels and self.cur_routine is not None and self.b(1, 12):
+            out += self.side_entry(in_loop, in_case)
+        return out
+
+    def side_entry(self, in_loop, in_case):
+        """anchor shape: code that is dead for its own routine and entered only through a label another routine jumps
+        to: <flow-ending statement> @se_N; <nothing | control statement | op>"""
+        self.n_side += 1
+        lab = f"se_{self.n_side}"
+        self.side_entries.append((lab, self.cur_routine))
+        self.labels_defined.add(lab)
+        opts = [{"k": "ctl", "v": self.pick(["return", "end", "hold"])}]
+        if in_loop:
+            opts.append({"k": "ctl", "v": self.pick(["continue", "break_loop"])})
+        if in_case:
+            opts.append({"k": "ctl", "v": "break"})
+        out = [self.pick(opts), {"k": "label", "name": lab}]
+        k = self.i(0, 3)
+        if k == 0:
+            c = self.lone_control(in_loop, in_case)
+            if c is not None and not (c["k"] == "jump"):
+                out.append(c)
+        elif k == 1:
+            out.append(self.op())
+        elif k == 2 and in_case:
+            out.append({"k": "ctl", "v": "break"})
         return out
 
     def maybe_with(self, s):
@@ -461,7 +490,9 @@ class G:
                 r["alias"] = True
                 r["body"] = []
             else:
+                self.cur_routine = rid
                 r["body"] = self.routine_body()
+                self.cur_routine = None
             used = min(save, per) - self.budget
             self.budget = save - used
             routines.append(r)
@@ -473,6 +504,15 @@ class G:
                 at = self.i(0, len(r["body"]))
                 r["body"][at:at] = [{"k": "label", "name": lab}, self.op()]
                 self.labels_defined.add(lab)
+        # side entries: the jump to each comes from ANOTHER routine where there is one (plain, or under a condition)
+        for lab, rid in self.side_entries:
+            others = [r for r in routines if not r["alias"] and r["id"] != rid] or [r for r in routines if not r["alias"]]
+            r = self.pick(others)
+            j = {"k": self.pick(["jump", "jump", "jump", "call"]), "label": lab}
+            if self.b():
+                j = {"k": "if", "not": False, "conds": [self.cond()], "body": [j], "elifs": [], "else": None}
+            at = self.i(0, len(r["body"]))
+            r["body"][at:at] = [j]
         return routines
 
 
@@ -542,6 +582,8 @@ def classify(program) -> set[str]:
                 out.add("fallthrough")
         if k == "op" and s.get("ctx"):
             out.add("inline_ctx")
+        if k == "label" and s["name"].startswith("se_"):
+            out.add("side_entry_into_dead_code")
         if k == "with" and s["stmt"]["k"] in ("ctl", "jump", "call"):
             out.add("with_around_control_stmt")
 
